@@ -249,7 +249,20 @@ impl DBM {
     /// reference to them.
     pub fn remove_tower_record(&self, tower_id: TowerId) -> Result<(), Error> {
         let query = "DELETE FROM towers WHERE tower_id=?";
-        self.remove_data(query, params![tower_id.to_vec()])
+        self.remove_data(query, params![tower_id.to_vec()])?;
+
+        // Appointments are not linked to towers directly (only through pending / invalid appointments), so the
+        // cascade does not reach them. Remove the ones that are not referenced by any tower anymore.
+        self.connection
+            .execute(
+                "DELETE FROM appointments
+                    WHERE locator NOT IN (SELECT locator FROM pending_appointments)
+                    AND locator NOT IN (SELECT locator FROM invalid_appointments)",
+                [],
+            )
+            .map_err(Error::Unknown)?;
+
+        Ok(())
     }
 
     /// Loads all tower records from the database.
